@@ -1036,7 +1036,10 @@ def run(ctx):
     t0 = vlib.time.time()
     del DRIFT[:]
     accepted, why, skipped = validate(ctx, lines)
-    drift_main = list(DRIFT)
+    # (the pinned witnesses of open known findings are expected to differ from the model of the fixed decisions)
+    kn = set(c['id'] for c in cases if c.get('origin') == 'known')
+    drift_known = [l for l in DRIFT if json.loads(l)['id'] in kn]
+    drift_main = [l for l in DRIFT if json.loads(l)['id'] not in kn]
     vlib.log('C05 trace validation: %.1fs, %d rejected lines' % (vlib.time.time() - t0, len(why)))
     # statistics measured on the recorded lines
     nontrivial, samples = set(), []
@@ -1072,6 +1075,7 @@ def run(ctx):
     nints = sum(1 for l in lines if l.startswith('{"kind":"path"') and '"ints":true' in l[:200])
     ctx.coverage['drift_compared_paths'] = nints
     ctx.coverage['drift'] = len(drift_main)
+    ctx.coverage['drift_on_known_witnesses'] = len(drift_known)
     if drift_main:
         ctx.coverage['drift_samples'] = [dict(**{'in': bytes(json.loads(l)['in']).decode('latin1'),
                                                  'out': bytes(json.loads(l)['out']).decode('latin1')}) for l in drift_main[:5]]
